@@ -108,6 +108,7 @@ type FixedFinding struct {
 	Commit     string `json:"commit"`
 	Key        string `json:"key"`
 	WhatFailed string `json:"what_failed"`
+	Regression string `json:"regression,omitempty"`
 }
 
 // LoadKnown reads known_findings.json.
